@@ -25,7 +25,7 @@ theorem enter_spec {α} {m : P α} {Qp : α → Prop} (h : T src Tr m (fun a _ =
     T src Tr (enter m) (fun a _ => Qp a) := by
   intro s hi _
   let s0 : PState := { s with depth := s.depth + 1, maxDepth := max s.maxDepth (s.depth + 1) }
-  have hi0 : Inv src s0 := hi.congr rfl rfl rfl rfl
+  have hi0 : Inv src s0 := hi.congr rfl rfl rfl rfl (fun _ h => h)
   have := h s0 hi0 trivial
   show match enter m s with
     | (.ok a, s') => Inv src s' ∧ Qp a
@@ -36,8 +36,8 @@ theorem enter_spec {α} {m : P α} {Qp : α → Prop} (h : T src Tr m (fun a _ =
   | mk r s1 =>
     rw [hm] at this
     cases r with
-    | error e => exact ⟨this.1, this.2.congr rfl rfl rfl⟩
-    | ok a => exact ⟨this.1.congr rfl rfl rfl rfl, this.2⟩
+    | error e => exact ⟨this.1, this.2.congr rfl rfl rfl (fun _ h => h)⟩
+    | ok a => exact ⟨this.1.congr rfl rfl rfl rfl (fun _ h => h), this.2⟩
 
 theorem fuel_spec {α} {Q : α → PState → Prop} : T src Tr (P.throw .fuel : P α) Q := T.throw _ (fun _ _ => trivial)
 
@@ -164,7 +164,7 @@ theorem next_establishes (s : PState) (hs : Inv0 src s) :
       nextTail trailing posTok : P Unit) s = (scanNext >>= nextTail tr) s1 := by
     cases hst : s.started <;> simp [tr, s1, hst, Bind.bind, P.get, P.modify, trueLine, scanPosition, Pure.pure]
   rw [e]
-  have h1 := scanNext_establishes (src := src) s1 (hs.congr rfl rfl rfl)
+  have h1 := scanNext_establishes (src := src) s1 (hs.congr rfl rfl rfl (fun _ h => h))
   show match (Bind.bind scanNext (nextTail tr)) s1 with
     | (.ok _, s') => Inv src s'
     | (.error e, s') => ErrOK e s' ∧ Inv0 src s'
@@ -257,25 +257,27 @@ theorem parseFile_eq (r : Tbl) : parseFile r = (do
     parseFileRest r) := rfl
 
 theorem parseFileTail_spec (docs : List Comment) (pkgName : Ident) (imps : List Import) (ds : List Declaration)
-    (hpkg : RealIdent src pkgName) :
+    (hpkg : RealIdent src pkgName) (hdocs : ∀ c ∈ docs, RealComment src c) :
     T src Tr (parseFileTail docs pkgName imps ds)
-      (fun f _ => CommentsSorted f ∧ CommentsReal src f ∧ RealIdent src f.pkg_name) := by
+      (fun f _ => CommentsSorted f ∧ CommentsReal src f ∧ RealIdent src f.pkg_name ∧
+        ∀ c ∈ f.docs, RealComment src c) := by
   unfold parseFileTail
   refine T.bind T.getInv (fun st => ?_)
   refine T.extract (p := Inv src st) (fun s h => by rw [h.1]; exact h.2.1) (fun hinv => ?_)
-  refine T.bind (Q1 := fun _ _ => True) ?_ (fun _ => T.pure _ (fun _ _ => ⟨hinv.sorted, hinv.real, hpkg⟩))
+  refine T.bind (Q1 := fun _ _ => True) ?_ (fun _ => T.pure _ (fun _ _ => ⟨hinv.sorted, hinv.real, hpkg, hdocs⟩))
   refine T.set _ ?_
   intro s hi hr
   obtain ⟨rfl, _⟩ := hr
-  exact ⟨⟨⟨hi.src_eq, by simp, by simp, by simp, hi.cur⟩, hi.mark⟩, trivial⟩
+  exact ⟨⟨⟨hi.src_eq, by simp, by simp, by simp, hi.cur, hi.lead⟩, hi.mark⟩, trivial⟩
 
 theorem parseFileRest_spec : T src Tr (parseFileRest r)
-    (fun f _ => CommentsSorted f ∧ CommentsReal src f ∧ RealIdent src f.pkg_name) := by
+    (fun f _ => CommentsSorted f ∧ CommentsReal src f ∧ RealIdent src f.pkg_name ∧
+      ∀ c ∈ f.docs, RealComment src c) := by
   unfold parseFileRest
-  refine T.bind drainComments_spec (fun docs => ?_)
+  refine T.bindP drainComments_spec ⟨fun docs hdocs => ?_⟩
   refine T.bindP (T.anyQ parsePackage_spec) ⟨fun pkgName hpkg => ?_⟩
   hoare
-  all_goals first | exact T.anyQ (parseFileTail_spec _ _ _ _ hpkg) | exact hpkg | skip
+  all_goals first | exact T.anyQ (parseFileTail_spec _ _ _ _ hpkg hdocs) | exact hpkg | exact hdocs | skip
 
 end
 
@@ -285,7 +287,7 @@ theorem initState_src (text : String) (profile : Profile) :
     (initState text profile).scan.src = text.toList.toArray ∧ (initState text profile).started = false := ⟨rfl, rfl⟩
 
 theorem initState_inv0 (text : String) (profile : Profile) : Inv0 text.toList.toArray (initState text profile) :=
-  ⟨rfl, by simp [initState], by simp [initState], by simp [initState], TokReal.none⟩
+  ⟨rfl, by simp [initState], by simp [initState], by simp [initState], TokReal.none, by simp [initState]⟩
 
 /-- a result that is a tree or an error value -/
 def NoPanic {α} (r : Except PErr α) : Prop := ∀ site, r ≠ .error (.panic site)
@@ -342,7 +344,19 @@ theorem parseFile_pkg_real (text : String) (profile : Profile) (n : Nat) (f : Fi
   have := entry (src := text.toList.toArray) (parseFileRest (tbl n)) hk (initState text profile)
     (initState_inv0 text profile) rfl
   rw [← parseFile_eq, h] at this
-  exact this.2.2.2
+  exact this.2.2.2.1
+
+/-- **C12 (one item), whole parser: the file's documentation is made of comments of the source.**  Whenever
+    `parse_file` accepts a text, every entry of `File::docs` is a comment token of that text at its offset;
+    `drainComments_spec` says the same of what every declaration, spec and field receives -/
+theorem parseFile_docs_real (text : String) (profile : Profile) (n : Nat) (f : File) (s' : PState)
+    (h : parseFile (tbl n) (initState text profile) = (.ok f, s')) :
+    ∀ c ∈ f.docs, RealComment text.toList.toArray c := by
+  have hk := @parseFileRest_spec text.toList.toArray (tbl n) (tblOK n)
+  have := entry (src := text.toList.toArray) (parseFileRest (tbl n)) hk (initState text profile)
+    (initState_inv0 text profile) rfl
+  rw [← parseFile_eq, h] at this
+  exact this.2.2.2.2
 
 /-- what `RealComment` means in terms of the text alone: the entry's text is found verbatim in the source
     at the entry's offset, and it is not empty -/
@@ -444,7 +458,7 @@ theorem expression_no_panic (text : String) (profile : Profile) (n : Nat) :
       (tblOK m).binaryExpression none 0 (by simp)
     let i0 : PState := initState text profile
     let s0 : PState := { i0 with depth := i0.depth + 1, maxDepth := max i0.maxDepth (i0.depth + 1) }
-    have := entry (src := text.toList.toArray) _ hk s0 ((initState_inv0 text profile).congr rfl rfl rfl) rfl
+    have := entry (src := text.toList.toArray) _ hk s0 ((initState_inv0 text profile).congr rfl rfl rfl (fun _ h => h)) rfl
     rw [← expressionBody_eq] at this
     show NoPanic (enter (expressionBody (tbl m)) (initState text profile)).1
     unfold enter
@@ -463,7 +477,7 @@ theorem parseStmt_no_panic (text : String) (profile : Profile) (n : Nat) :
     have hk := @parseStmtRest_spec text.toList.toArray (tbl m) (tblOK m)
     let i0 : PState := initState text profile
     let s0 : PState := { i0 with depth := i0.depth + 1, maxDepth := max i0.maxDepth (i0.depth + 1) }
-    have := entry (src := text.toList.toArray) _ hk s0 ((initState_inv0 text profile).congr rfl rfl rfl) rfl
+    have := entry (src := text.toList.toArray) _ hk s0 ((initState_inv0 text profile).congr rfl rfl rfl (fun _ h => h)) rfl
     rw [← parseStmtBody_eq] at this
     show NoPanic (enter (parseStmtBody (tbl m)) (initState text profile)).1
     unfold enter
